@@ -69,6 +69,9 @@ func FuzzFinalize3(f *testing.F)     { fuzzTarget(f, "type3.FinalizeToken") }
 func FuzzFinalize5(f *testing.F)     { fuzzTarget(f, "type5.FinalizeTokens") }
 func FuzzIssuer3(f *testing.F)       { fuzzTarget(f, "type3.RateLimitedIssuer.Evaluate") }
 func FuzzVerifyRequest(f *testing.F) { fuzzTarget(f, "type3.Attester.VerifyRequest") }
+func FuzzVerifyThenFinalizeIndex(f *testing.F) {
+	fuzzTarget(f, "type3.Attester.VerifyRequest+FinalizeIndex")
+}
 func FuzzFinalizeIndex(f *testing.F) { fuzzTarget(f, "type3.Attester.FinalizeIndex") }
 func FuzzVerifyASN1(f *testing.F)    { fuzzTarget(f, "ecdsa.VerifyASN1") }
 func FuzzEcdsaVerify(f *testing.F)   { fuzzTarget(f, "ecdsa.Verify") }
